@@ -4,7 +4,7 @@ import itertools
 
 OPS = ("Select", "Where", "SelectMany", "sel")  # sel = a wrapper method that forwards its argument to Select
 PARAMS = ("e", "f")
-STYLES = ("one", "brk", "par", "cmt", "str", "nest")
+STYLES = ("one", "brk", "par", "cmt", "str", "nest", "fstr", "coll", "fstr0", "fstr1")
 
 
 def lam(p, k, op, style):
@@ -20,6 +20,14 @@ def lam(p, k, op, style):
         return f"lambda {p}: {p}.m{k}{cmp_}  # a comment ) with lambda x: x, and (\n\t"
     if style == "str":
         return f"lambda {p}: {p}.m{k}.s('a)b, lambda z: z('){cmp_}"
+    if style == "fstr":
+        return f"lambda {p}: {p}.m{k}.s(f\"({{{p}.x}}),{{{p}.y}}\"){cmp_}"
+    if style == "fstr0":
+        return f"lambda {p}: {p}.m{k}{cmp_[:3]}f\"({{{p}.x}})\""
+    if style == "fstr1":
+        return f"lambda {p}: {p}.m{k}{cmp_[:3]}f\"{{{p}.x}},{{{p}.y}}\""
+    if style == "coll":
+        return f"lambda {p}: {p}.m{k}.s([{p}.a, {p}.b], {{'k': {p}.c, 'l': ({p}.d, 1)}})[1, 2]{cmp_}"
     if style == "nest":
         return f"lambda {p}: {p}.m{k}.Select(lambda q: q.n{k}).v{cmp_}"
     raise ValueError(style)
